@@ -4,7 +4,7 @@ dispatch tables are inverse."""
 from vlib import fixtures
 import re
 
-from rules import pair, order, trunc
+from rules import pair, order, trunc, partial
 from rules.variant import storage_switches, arm_region
 from vlib.mir import Fn, op_local
 from vlib.run import Broken
@@ -18,7 +18,7 @@ NAME_PAIRS = [("serialize", "deserialize"), ("serialize_with_version", "deserial
 
 def run(ctx):
     fx = ctx.facts("default")
-    fixtures.run(ctx, ['pair', 'marker', 'varint'])
+    fixtures.run(ctx, ['pair', 'marker', 'varint', 'partial'])
     # 1. primitives: every DataOutput::write_K against every DataInput::read_K
     W, Rd = {}, {}
     for fid in fx.fn_ids():
@@ -121,6 +121,9 @@ def run(ctx):
     # LEB128 writers decide "more bytes follow" exactly at the 7-bit limit
     trunc.writer_threshold(ctx, fx, [f for f in fx.files() if f.startswith('src/io/')])
     ctx.floor('R-VARINT.threshold.writers', 4)
+    # buffering writers: the count of a partial write is returned or the write is retried
+    partial.run(ctx, fx, [f for f in fx.files() if f.startswith('src/io/')])
+    ctx.floor('R-PARTIALWRITE.sites', 5)
     return dict(
         level_note="decides format agreement (widths, endianness, field order, prefix kinds, inverse dispatch); value round "
                    "trips (7-bit grouping, zigzag, delta, group-varint arithmetic), SIMD/scalar byte identity and buffered "
